@@ -334,6 +334,17 @@ fn run_program(rng: &mut Rng, allow_signing: bool) -> Outcome {
                     }
                 }
                 log.push("header".into());
+                // the getters read back what the operations so far set
+                let got = (w.id(), w.qr(), u8::from(w.opcode()), w.aa(), w.tc(), w.rd(), w.ra(), u8::from(w.rcode()));
+                let want = (m.id, m.qr, m.opcode, m.aa, m.tc, m.rd, m.ra, m.rcode);
+                if got != want {
+                    problems.push(("c12:header-getters".into(), format!("header getters (id, qr, opcode, aa, tc, rd, ra, rcode) return {:?}, the operations set {:?}", got, want)));
+                }
+                let counts = (w.qdcount() as usize, w.ancount() as usize, w.nscount() as usize);
+                let want_counts = (m.questions.len(), m.answers.len(), m.authorities.len());
+                if counts != want_counts {
+                    problems.push(("c12:count-getters".into(), format!("qdcount/ancount/nscount getters return {:?}, {:?} were added successfully", counts, want_counts)));
+                }
             }
             8..=17 => {
                 let name = pool_name(rng);
